@@ -224,6 +224,7 @@ def run(ctx) -> None:
     RK = ctx.rule("C06/every-block-has-a-waker", "for every library thread class: its stop() reaches, on every path consistent with the state in which the thread can block there, the waker of every untimed blocking site reachable from its run(), after the stop flag is set", floor=4)
     RM = ctx.rule("C06/monitor-discipline", "every untimed Condition.wait() is the body of a loop whose condition reads shared state, and every notifier writes some of that state before notifying", floor=3)
     RR = ctx.rule("C06/callback-lock-reentrant", "the lock held while calling user handlers, which public API methods also take, is an RLock", floor=1)
+    RP = ctx.rule("C06/producers-never-block", "emitter threads put on the observer's event queue with a blocking put and no timeout; the consumer stops consuming once stop() is called (and stop() joins the emitters while holding the lock the consumer needs), so the queue must be unbounded", floor=1)
     RI = ctx.rule("C06/stop-idempotent", "release actions on the inotify stop path are guarded by a state test that the first execution falsifies", floor=2)
 
     thorough = ctx.tier == "thorough"
@@ -455,6 +456,37 @@ def run(ctx) -> None:
 
     monitor_discipline(ctx, RM, skip_modules=LINUX_SKIP)
 
+    # ---------------------------------------------------------------- producers never block
+    qclasses = set(P.subclasses("SkipRepeatsQueue")) | {"Queue"}
+    ncons = 0
+    for m in P.modules.values():
+        for n in ast.walk(m.tree):
+            if isinstance(n, ast.Call) and (dotted(n.func) or "").split(".")[-1] in qclasses and (dotted(n.func) or "").split(".")[-1] != "Queue":
+                ncons += 1
+                size = n.args[0] if n.args else next((k.value for k in n.keywords if k.arg == "maxsize"), None)
+                v = None if size is None else P.fold(size, m)
+                bounded = size is not None and not (isinstance(v, int) and v <= 0)
+                ctx.check(
+                    not bounded,
+                    RP,
+                    f"{m.name}: {ast.unparse(n)[:60]}",
+                    f"the event queue is bounded (maxsize={ast.unparse(size) if size is not None else None}): when it fills up, emitter threads block in put() with no timeout and no look at the stop flag; "
+                    "stop()/unschedule() then join them while holding the observer lock the consumer needs, and the observer thread stops consuming once the flag is set — join() never returns",
+                    f"{m.relpath}:{n.lineno}",
+                )
+    puts_blocking = []
+    for T, rp in runs.items():
+        for p in rp:
+            for e in p.flat():
+                if is_queue_put(e) and e.extra.get("func", "").endswith(".put"):
+                    kw = e.extra.get("kwargs", {})
+                    args = e.extra.get("args") or []
+                    if "timeout" not in kw and len(args) < 3 and kw.get("block") != "False":
+                        puts_blocking.append((T, e))
+    ctx.extra["blocking_puts_in_thread_bodies"] = sorted({f"{T}: {e.fn}:{e.line}" for T, e in puts_blocking})
+    if ncons == 0:
+        raise AnalysisError("no construction of the observer event queue found")
+
     # ---------------------------------------------------------------- callback lock re-entrant
     k = lock_kind(P, "BaseObserver", "_lock")
     ctx.check(k == "RLock", RR, "BaseObserver._lock", f"the observer lock is a {k}: a handler that calls schedule()/unschedule()/stop() from inside a callback deadlocks on it", P.cls("BaseObserver").loc)
@@ -510,6 +542,8 @@ VARIANTS = [
     dict(name="B debouncer stop without notify", expect="fire", rule="C06/", edits=[(DB, "            super().stop()\n            self._cond.notify()", "            super().stop()")]),
     dict(name="B dispatcher joined under the observer lock by unschedule_all", expect="fire", rule="C06/", edits=[(API, "            self._clear_emitters()\n            self._watches.clear()", "            self._clear_emitters()\n            self._watches.clear()\n            self.join()")]),
     dict(name="B emitter close not cleared (double close)", expect="fire", rule="C06/stop-idempotent", edits=[(IN, "            self._inotify.close()\n            self._inotify = None", "            self._inotify.close()")]),
+    dict(name="B bounded event queue", expect="fire", rule="C06/producers-never-block", edits=[(API, "        self._event_queue = EventQueue()", "        self._event_queue = EventQueue(maxsize=4096)")]),
+    dict(name="E explicitly unbounded event queue", expect="silent", edits=[(API, "        self._event_queue = EventQueue()", "        self._event_queue = EventQueue(maxsize=0)")]),
     dict(name="E notify -> notify_all", expect="silent", edits=[(DQ, "        self._not_empty.acquire()\n        self._not_empty.notify()\n        self._not_empty.release()", "        self._not_empty.acquire()\n        self._not_empty.notify_all()\n        self._not_empty.release()")]),
     dict(name="E put instead of put_nowait for the sentinel", expect="silent", edits=[(API, "self.event_queue.put_nowait(EventDispatcher.stop_event)", "self.event_queue.put(EventDispatcher.stop_event, False)")]),
 ]
